@@ -31,7 +31,7 @@ let handle (toks : string list) (raw : string) =
     let nz = z_of_string n and kz = z_of_string k in
     check (Stdlib.List.hd toks) raw acc (string_of_int (b2i (Quorum.trusted kz nz nz)))
   | "O" :: rest -> Handlers.quorum_ops check raw rest
-  | k :: _ -> Handlers.dispatch check k toks raw
+  | k :: _ -> Handlers.dispatch check diff k toks raw
   | [] -> ()
 
 let () =
